@@ -258,6 +258,10 @@ func generateControllerSpec(doc *v3.Document, config *definitions.OpenAPIGenerat
 	for _, route := range def.Routes {
 
 		if swagtool.IsHiddenAsset(&route.Hiding) {
+			// A hidden route is still served and its security enforced - it may only name declared schemes
+			if err := generateOperationSecurity(&v3.Operation{}, config, route); err != nil {
+				return err
+			}
 			logger.Info(fmt.Sprintf("Skipping hidden route: %v %s (%s)", route.HttpVerb, route.RestMetadata.Path, route.OperationId))
 			continue
 		}
